@@ -95,3 +95,60 @@ Example C03_alias_keys_differ :
   let s := hh_add 1 4 b (hh_add 1 4 b (hh_empty 4) [97;0] 5) [97] 3 in
   (hh_get 1 4 b s [97], hh_get 1 4 b s [97;0]) = (0, 2).
 Proof. split; [reflexivity|split; [discriminate|vm_compute; reflexivity]]. Qed.
+
+(* the bodies of the row loops of _add and _max_count and of the cell loop of _merge, as regenerated from the source
+   AST on this run (generated/KernelsHH.v, over an abstract key-array type with an abstract array comparison), are the
+   cell operations of the model once the key arrays are the model's padded arrays and the comparison is keqb
+   (cell_triple c = (ckey c, cnt c, klen c)) *)
+From Sketchnu Require KernelsHH KernelTieHH.
+Theorem C03_add_source_tie :
+  forall (cl : cell) (arr : key) (key_len value : Z), 0 <= cnt cl <= hh_cap -> 0 <= value <= hh_cap ->
+    KernelsHH.gen_hh_add_cell key keqb (ckey cl) (cnt cl) (klen cl) arr key_len value hh_cap
+    = KernelTieHH.cell_triple (cell_add cl arr key_len value).
+Proof. exact KernelTieHH.tie_hh_add. Qed.
+Print Assumptions C03_add_source_tie.
+
+Theorem C03_merge_source_tie :
+  forall a b : cell, 0 <= cnt a <= hh_cap -> 0 <= klen b < 256 ->
+    KernelsHH.gen_hh_merge_cell key keqb (ckey a) (cnt a) (klen a) (ckey b) (cnt b) (klen b) hh_cap
+    = KernelTieHH.cell_triple (cell_merge a b).
+Proof. exact KernelTieHH.tie_hh_merge. Qed.
+Print Assumptions C03_merge_source_tie.
+
+Theorem C03_max_count_source_tie :
+  KernelsHH.gen_hh_max_count_init = 0 /\
+  (forall (mc : Z) (cl : cell) (arr : key) (key_len : Z), 0 <= key_len < 256 ->
+     KernelsHH.gen_hh_max_count_row key keqb mc (ckey cl) (cnt cl) (klen cl) arr key_len
+     = KernelTieHH.max_count_row_hand mc cl arr key_len).
+Proof. exact KernelTieHH.tie_hh_max_count. Qed.
+Print Assumptions C03_max_count_source_tie.
+
+(* only the loop headers (and the key preparation of _add) are hand-transcribed: the model's loops iterate exactly
+   the tied bodies, _max_count starting from the regenerated initial value *)
+Theorem C03_loops_iterate_tied_bodies :
+  (forall depth max_key_len bucket s k value,
+     tab (hh_add_raw depth max_key_len bucket s k value)
+     = let '(k', arr, key_len) := prep_key max_key_len k in
+       fold_left (fun t row => let col := bucket row k' in upd t row col (cell_add (t row col) arr key_len value))
+                 (seq 0 depth) (tab s)) /\
+  (forall width depth s o r c,
+     tab (hh_merge width depth s o) r c
+     = if andb (r <? depth)%nat (c <? width)%nat then cell_merge (tab s r c) (tab o r c) else tab s r c) /\
+  (forall depth max_key_len bucket (t : table) k key_len,
+     max_count depth max_key_len bucket t k key_len
+     = fold_left (fun mc row => KernelTieHH.max_count_row_hand mc (t row (bucket row k))
+                                  (if key_len =? zL max_key_len then k else pad max_key_len k) key_len)
+                 (seq 0 depth) KernelsHH.gen_hh_max_count_init).
+Proof. exact KernelTieHH.hh_loops_iterate_tied_bodies. Qed.
+Print Assumptions C03_loops_iterate_tied_bodies.
+
+(* non-vacuity of the range hypotheses: a saturating add, a replacing add, a saturating merge *)
+Example C03_source_tie_nonvacuous :
+  let cl := mkCell [97;0] 1 4294967290 in
+  (0 <= cnt cl <= hh_cap /\ 0 <= 7 <= hh_cap /\ 0 <= klen cl < 256) /\
+  KernelsHH.gen_hh_add_cell key keqb (ckey cl) (cnt cl) (klen cl) [97;0] 1 7 hh_cap = ([97;0], 4294967295, 1) /\
+  KernelsHH.gen_hh_add_cell key keqb [97;0] 3 1 [97;0] 2 7 hh_cap = ([97;0], 4, 2) /\
+  KernelsHH.gen_hh_merge_cell key keqb (ckey cl) (cnt cl) (klen cl) (ckey cl) (cnt cl) (klen cl) hh_cap = ([97;0], 4294967295, 1) /\
+  KernelsHH.gen_hh_max_count_row key keqb 3 [97;0] 5 1 [97;0] 1 = 5 /\
+  KernelsHH.gen_hh_max_count_row key keqb 3 [97;0] 5 2 [97;0] 1 = 3.
+Proof. vm_compute. repeat split; discriminate. Qed.
